@@ -104,6 +104,8 @@ impl Family for C09 {
     let rec_b2 = rec_b.clone();
     let src_log = Arc::new(Mutex::new(SrcLog::default()));
     let u_stamp: Arc<Mutex<Option<u64>>> = Arc::new(Mutex::new(None));
+    let inner_workers: Arc<Mutex<Vec<Vec<usize>>>> = Arc::new(Mutex::new(Vec::new()));
+    let inner_workers2 = inner_workers.clone();
     let (rec2, sl, us, sc, shape2, sm) = (rec.clone(), src_log.clone(), u_stamp.clone(), script.clone(), shape.clone(), source_mode.clone());
     let res = rt::run(cfg, move || {
       let handles = Arc::new(Mutex::new(Vec::new()));
@@ -112,9 +114,24 @@ impl Family for C09 {
         "threaded" => threaded_source("source", sc, sl, false, gaps_ns.clone(), handles.clone()),
         _ => threaded_source("source", sc, sl, true, gaps_ns.clone(), handles.clone()),
       };
+      let mut first_so = true;
       for st in &shape2 {
         o = match st.as_str() {
           "oo" => o.observe_on(schedulers::new_thread_scheduler()),
+          "so" if first_so => {
+            // the subscribe_on next to the source: its scheduler's worker is the thread the source
+            // must be subscribed on (the worker is the library task that appears while the
+            // scheduler is being built)
+            first_so = false;
+            let iw = inner_workers2.clone();
+            o.subscribe_on(move || {
+              let before: std::collections::BTreeSet<usize> = rt::tasks().iter().filter(|t| t.origin == Origin::Library).map(|t| t.id).collect();
+              let s = schedulers::new_thread_scheduler()();
+              let new: Vec<usize> = rt::tasks().iter().filter(|t| t.origin == Origin::Library && !before.contains(&t.id)).map(|t| t.id).collect();
+              iw.lock().unwrap().push(new);
+              s
+            })
+          }
           "so" => o.subscribe_on(schedulers::new_thread_scheduler()),
           _ => o.map(|v: Val| Val::Int(v.int() + 100)),
         };
@@ -258,6 +275,19 @@ impl Family for C09 {
         }
         if u.is_none() && subs.is_empty() {
           v.push(Violation::new("events-lost", blame, "subscribe_on never subscribed the source".into()));
+        }
+        // ... namely on the thread of the scheduler that the subscribe_on next to the source was
+        // given (several subscribe_on stacked: not on an outer one's worker)
+        let iw = inner_workers.lock().unwrap().clone();
+        if iw.len() < subs.len() {
+          v.push(Violation::new("wrong-thread", blame, format!("the source was subscribed {} time(s), but the subscribe_on next to it built its scheduler only {} time(s)", subs.len(), iw.len())));
+        } else {
+          let own: Vec<usize> = iw.iter().flatten().copied().collect();
+          for (_, t) in &subs {
+            if iw.iter().all(|x| x.len() == 1) && !own.contains(t) {
+              v.push(Violation::new("wrong-thread", blame, format!("the source was subscribed on task {}, which is not the worker of the scheduler given to the subscribe_on next to it ({:?})", t, own)));
+            }
+          }
         }
       }
     }
